@@ -5,6 +5,10 @@
     waldir    C17  pg_wal directories → ScanWALDirectory + GetRecentWALRecords
     walraw    C17  corrupted segments, full output (correspondence only, spec silent)
     walmut    C10  corrupted segments, must not panic
+  walseg also compares, on every generated segment, the two independently written layout encoders of the Spec
+  (`encSegment`: cut the stream of usable bytes into pages; `encSegmentOp`: copy records page by page, the one
+  `C17_records` is proved about): same bytes, same record positions and classes — tag `layout=agree`; a
+  disagreement turns the expected text into `LAYOUT-MISMATCH`, i.e. a reported violation.
   Names in the expected (SPEC) text: PostgreSQL's name where it defines one (version 16 table; the generators
   use the magics of 15/16 only) — except that a numeric placeholder printed by the tool for an operation it has
   no name for is accepted (it declines to name, it does not misname); where PostgreSQL defines no name the
